@@ -130,6 +130,14 @@ func (r *Run) globalObj(g *ssa.Global) int {
 		zero = r.zeroCells(elem)
 	}
 	o := &Object{ID: id, N: n, Zero: zero, Epoch: -1, Name: g.String(), Global: true}
+	if g.Pkg != nil && !initWhitelisted(g.Pkg.Pkg.Path()) {
+		switch elem.Underlying().(type) {
+		case *types.Interface, *types.Pointer, *types.Map, *types.Slice, *types.Signature, *types.Chan:
+			// the package initialiser is not executed: reading this variable before
+			// anything was stored into it would silently see nil
+			o.NoInit = true
+		}
+	}
 	if len(zero) == 0 {
 		o.Zero = []Value{Opaque{"empty"}}
 	}
